@@ -25,6 +25,9 @@ def run(ctx):
     rcn = ctx.rule('R-CONNECT', 'Connect: registered => released, not registered => Set from the result', minimum=4)
     rcm = ctx.rule('R-COMMIT', 'Promise::Set constructs the Result (may throw) before it gives the handle away', minimum=6)
     rsh = ctx.rule('R-SHAPE', 'SetResultImpl runs the registered callback(s) exactly once and loses none (shape analysis, all list lengths)', minimum=2)
+    rhm = ctx.rule('R-HANDLEMOVE', '(shared with C03) move-assigning over a Promise / Future never releases the state it held '
+                   'by a bare DecRef: the old state leaves in the right-hand side and meets its destructor (a dropped '
+                   'Promise completes its Future with StopError)', minimum=3)
     rgw = ctx.rule('R-GETWAIT', 'Future::Get reads the stored Result only after Wait(*this) / on the true edge of Ready()',
                    minimum=2)
     rcf = ctx.rule('R-CASFRESH', 'every retry of a compare-exchange re-tests the refreshed expected value against the '
@@ -33,6 +36,8 @@ def run(ctx):
         ctx.guard(lambda: lib_order.check_cas_fresh(ctx, fb, rcf, lambda f: 'BaseCore' in f.qn))
         ctx.guard(lambda: lib_shape.check(ctx, fb, rsh, lambda qn: 'SetResultImpl' in qn, 2))
         ctx.guard(lambda: lib_core.check_commit(ctx, fb, rcm))
+        from rules import lib_iptr
+        ctx.guard(lambda: lib_iptr.check_handle_move(ctx, fb, rhm))
         if (ctx.guard(lambda: lib_core.check_get_wait(ctx, fb, rgw, ('yaclib::FutureBase',))) or 0) < 2:
             ctx.guard(lambda: ctx.broken('R-GETWAIT: FutureBase::Get not instantiated'))
         seen = set()
